@@ -4,8 +4,8 @@
 // Read-only accessors: they expose handles and fields, they perform no bookkeeping.
 package tchannel
 
-// VerifConnInfo is what the C16 engine needs to know about a connection.
-type VerifConnInfo struct {
+// VerifConnInfo16 is what the C16 engine needs to know about a connection.
+type VerifConnInfo16 struct {
 	ID         uint32
 	Dir        int // 1 inbound, 2 outbound
 	State      int // connectionState
@@ -16,8 +16,8 @@ type VerifConnInfo struct {
 }
 
 // VerifConnInfoOf reads the identifying fields and the current state of c.
-func VerifConnInfoOf(c *Connection) VerifConnInfo {
-	return VerifConnInfo{
+func VerifConnInfoOf(c *Connection) VerifConnInfo16 {
+	return VerifConnInfo16{
 		ID:         c.connID,
 		Dir:        int(c.connDirection),
 		State:      int(c.readState()),
